@@ -316,7 +316,9 @@ class MappingSchema(AbstractMappingSchema, Schema):
         self._dialect: Dialect = Dialect.get_or_raise(dialect)
         self._type_mapping_cache: dict[str, exp.DataType] = {}
         self._normalized_table_cache: dict[tuple[exp.Table, DialectType, bool], exp.Table] = {}
-        self._normalized_name_cache: dict[tuple[str, DialectType, bool, bool], str] = {}
+        self._normalized_name_cache: dict[
+            tuple[str | tuple[str, bool], DialectType, bool, bool], str
+        ] = {}
         self._find_cache: dict[tuple[exp.Table, bool], dict[str, object] | None] = {}
         self._depth: int = 0
         schema = {} if schema is None else schema
@@ -640,7 +642,8 @@ class MappingSchema(AbstractMappingSchema, Schema):
         normalize = self.normalize if normalize is None else normalize
 
         dialect = dialect or self.dialect
-        name_str = name if isinstance(name, str) else name.name
+        # A quoted identifier may normalize differently from a string or unquoted identifier of the same name
+        name_str = name if isinstance(name, str) else (name.name, bool(name.args.get("quoted")))
         cache_key = (name_str, dialect, is_table, normalize)
 
         if cached := self._normalized_name_cache.get(cache_key):
